@@ -53,34 +53,37 @@ Fixpoint view_listing (k : nat) (sp : nspec) (p : nat) : list (nat * nat) :=
   | S k' => match Dview sp p with Some d => (p, d) :: view_listing k' sp (S p) | None => [] end
   end.
 
-Lemma listing_as_view big k sp : forall p, (forall q, D q <> None -> q < big) ->
+Lemma listing_as_view big sp : forall k p, (forall q, p <= q < p + k -> D q <> None -> q < big) ->
   match sp with
   | NNil => view_listing k sp p = []
   | NMemo => view_listing k sp p = listing D k p big
   | NLim l => l <= big -> p <= l -> view_listing k sp p = listing D k p l
   end.
 Proof.
-  intros p Hbig. destruct sp as [| |l].
-  - destruct k; reflexivity.
-  - revert p. induction k as [|k IH]; intros p; cbn [view_listing listing]; [reflexivity|].
+  destruct sp as [| |l].
+  - intros k p _. destruct k; reflexivity.
+  - induction k as [|k IH]; intros p Hbig; cbn [view_listing listing]; [reflexivity|].
     unfold Dview, in_spec. cbn [spec_limit]. destruct (D p) as [d|] eqn:Ed.
-    + assert (p < big) by (apply Hbig; congruence). destruct (Nat.ltb_spec p big); [|lia]. rewrite IH. reflexivity.
+    + assert (p < big) by (apply Hbig; [lia|congruence]). destruct (Nat.ltb_spec p big); [|lia].
+      rewrite IH; [reflexivity|]. intros q Hq. apply Hbig. lia.
     + destruct (p <? big); reflexivity.
-  - intros Hl. revert p. induction k as [|k IH]; intros p Hp; cbn [view_listing listing]; [reflexivity|].
+  - induction k as [|k IH]; intros p Hbig Hl Hp; cbn [view_listing listing]; [reflexivity|].
     unfold Dview, in_spec. cbn [spec_limit]. destruct (Nat.ltb_spec p l).
-    + destruct (D p); [rewrite IH by lia; reflexivity|reflexivity].
+    + destruct (D p); [rewrite IH by (try lia; intros q Hq; apply Hbig; lia); reflexivity|reflexivity].
     + reflexivity.
 Qed.
 
-Theorem view_scan_spec big k c sp start : (forall q, D q <> None -> q < big) ->
+(* big stands for math.MaxInt: no position that the scan can reach (it stops after k items) is at or beyond it -
+   which holds when the digit string ends below big, and also for an endless one as long as start + k <= big *)
+Theorem view_scan_spec big k c sp start : (forall q, q < start + k -> D q <> None -> q < big) ->
   (match sp with NLim l => l <= big | _ => True end) ->
   view_scan big k c sp start = view_listing k sp (match sp with NLim l => Nat.min start l | _ => start end).
 Proof.
   intros Hbig Hl. unfold view_scan. destruct sp as [| |l].
   - destruct k; reflexivity.
-  - rewrite scan_spec by auto. symmetry. apply (listing_as_view big k NMemo start Hbig).
+  - rewrite scan_spec by auto. symmetry. apply (listing_as_view big NMemo k start). intros q Hq. apply Hbig. lia.
   - rewrite scan_spec by auto. rewrite (Nat.min_r big l) by lia. symmetry.
-    apply (listing_as_view big k (NLim l) (Nat.min start l) Hbig); lia.
+    apply (listing_as_view big (NLim l) k (Nat.min start l)); [|lia|lia]. intros q Hq. apply Hbig. lia.
 Qed.
 
 (* allDigits (behind every backward read): FirstN(MaxInt) through the spec; its length is the number of digits
@@ -110,5 +113,68 @@ Proof.
     + destruct (Nat.ltb_spec L l); [|reflexivity].
       destruct (Nat.lt_ge_cases L (Nat.min big l)) as [Hlt|Hge]; [apply H3; exact Hlt|].
       destruct (D L) eqn:E; [|reflexivity]. exfalso. assert (L < big) by (apply Hbig; congruence). lia.
+Qed.
+
+(* mantissa.ReverseScan(start) / ReverseTo stopped after k items: allDigits() is FirstN(MaxInt) through the spec,
+   then the index runs from the last digit down to start *)
+Definition cell (j : nat) : list (nat * nat) := match D j with Some d => [(j, d)] | None => [] end.
+Definition view_rev (big k c : nat) (sp : nspec) (start : nat) : list (nat * nat) :=
+  let L := view_all_len big c sp in
+  firstn k (flat_map cell (rev (seq start (L - start)))).
+
+Definition vcell (sp : nspec) (j : nat) : list (nat * nat) := match Dview sp j with Some d => [(j, d)] | None => [] end.
+
+Lemma listing_seq sp : forall m start n,
+  (forall j, start <= j < start + m -> Dview sp j <> None) -> Dview sp (start + m) = None -> m < n ->
+  view_listing n sp start = flat_map (vcell sp) (seq start m).
+Proof.
+  induction m as [|m IH]; intros start n Hin Hend Hn.
+  - destruct n as [|n]; [lia|]. cbn [view_listing seq flat_map]. rewrite Nat.add_0_r in Hend. rewrite Hend. reflexivity.
+  - destruct n as [|n]; [lia|]. cbn [view_listing seq flat_map]. unfold vcell at 1.
+    destruct (Dview sp start) as [d|] eqn:E; [|exfalso; apply (Hin start); [lia|exact E]].
+    cbn [app]. f_equal. apply IH.
+    + intros j Hj. apply Hin. lia.
+    + replace (S start + m) with (start + S m) by lia. exact Hend.
+    + lia.
+Qed.
+
+Lemma flat_map_ext_in' {A B} (f g : A -> list B) (l : list A) : (forall x, In x l -> f x = g x) -> flat_map f l = flat_map g l.
+Proof. induction l as [|a l IH]; intros H; [reflexivity|]. cbn [flat_map]. rewrite (H a) by now left. rewrite IH; [reflexivity|]. intros x Hx. apply H. now right. Qed.
+
+Lemma rev_flat_map_small {A B} (g : A -> list B) (l : list A) : (forall x, length (g x) <= 1) ->
+  rev (flat_map g l) = flat_map g (rev l).
+Proof.
+  intros Hg. induction l as [|a l IH]; [reflexivity|]. cbn [flat_map rev]. rewrite rev_app_distr, IH, flat_map_app.
+  cbn [flat_map]. rewrite app_nil_r. f_equal. specialize (Hg a). destruct (g a) as [|b [|b' r]]; cbn in *; [reflexivity|reflexivity|lia].
+Qed.
+
+(* backward traversal is the exact reverse of the complete forward traversal from start (any n large enough) *)
+Theorem view_rev_spec big k c sp start n : (forall q, D q <> None -> q < big) ->
+  view_all_len big c sp - start < n ->
+  view_rev big k c sp start = firstn k (rev (view_listing n sp start)).
+Proof.
+  intros Hbig Hn. unfold view_rev. destruct (view_all_len_spec big c sp Hbig) as (Hlt & Hend). cbn zeta in *.
+  set (L := view_all_len big c sp) in *.
+  destruct (Nat.le_gt_cases L start) as [Hle|Hgt].
+  - (* nothing at or above start *)
+    replace (L - start) with 0 by lia. cbn [seq rev flat_map].
+    assert (Dview sp start = None) as E.
+    { destruct (Dview sp start) eqn:E; [|reflexivity]. exfalso.
+      (* Dview is closed upwards *)
+      assert (Hcl : forall i, Dview sp i = None -> Dview sp (S i) = None).
+      { intros i. unfold Dview, in_spec. destruct (spec_limit sp) as [l|].
+        - destruct (Nat.ltb_spec i l), (Nat.ltb_spec (S i) l); try lia; auto.
+        - apply D_closed. }
+      assert (Hup : forall m, Dview sp (L + m) = None) by (induction m as [|m IHm]; [rewrite Nat.add_0_r; exact Hend|rewrite Nat.add_succ_r; apply Hcl; exact IHm]).
+      specialize (Hup (start - L)). replace (L + (start - L)) with start in Hup by lia. congruence. }
+    destruct n as [|n]; [lia|]. cbn [view_listing]. rewrite E. reflexivity.
+  - rewrite (listing_seq sp (L - start) start n).
+    + rewrite rev_flat_map_small by (intros x; unfold vcell; destruct (Dview sp x); cbn; lia).
+      f_equal. symmetry. apply flat_map_ext_in'. intros j Hj. apply in_rev, in_seq in Hj.
+      unfold cell, vcell. assert (Hj' : Dview sp j <> None) by (apply Hlt; lia).
+      unfold Dview in *. destruct (in_spec sp j); [reflexivity|congruence].
+    + intros j Hj. apply Hlt. lia.
+    + replace (start + (L - start)) with L by lia. exact Hend.
+    + exact Hn.
 Qed.
 End ViewReads.
